@@ -182,7 +182,7 @@ func (c *overlapCase) run() {
 		count++ // only thread A gets here, no lock needed
 		return count == c.GateN
 	})
-	x.W.Gate = pk.Gate
+	x.W.SetGate(pk.Gate)
 	before := len(x.R.Obs)
 	aDone, bDone := make(chan struct{}), make(chan struct{})
 	go func() {
@@ -211,7 +211,7 @@ func (c *overlapCase) run() {
 		c.Hang = "operation B did not return within 20 s"
 		return
 	}
-	x.W.Gate = nil
+	x.W.SetGate(nil)
 	// identify the observations of A and B (A's may come after B's in the log)
 	for i := before; i < len(x.R.Obs); i++ {
 		o := x.R.Obs[i]
